@@ -175,6 +175,7 @@ class Exec:
         self.sites = []  # panic sites visited: dicts(fn, block, kind, operands, facts)
         self.sink_roots = set()
         self.loops_seen = set()  # (fn path, header block) of every loop the evaluation summarised
+        self.visited = set()     # (fn path, block) of every basic block some path of the evaluation executed
         self.cur_site = (None, None, None, None)
 
     def iter_item(self, st, itv, loopid):
@@ -387,6 +388,7 @@ class Exec:
         fn = fr.fn
         cfg = fr.cfg
         self.loops_seen.add((fn.path, h))
+        self.visited.add((fn.path, h))
         blk = fn.block_by_id[h]
         t = blk["term"]
         nm = callees.callee_name(t["callee"]) if t["k"] == "call" else ""
@@ -440,6 +442,7 @@ class Exec:
             b = h
             for _ in range(6):
                 blk_ = fn.block_by_id[b]
+                self.visited.add((fn.path, b))
                 for si_, s_ in enumerate(blk_["stmts"]):
                     if s_["k"] == "assign":
                         self.cur_site = (fn, b, s_["span"], si_)
@@ -742,7 +745,12 @@ class Exec:
             elif k == "index":
                 idx = self.read_path(st, (("L", fr.id, e["local"]),))
             elif k == "cindex":
-                idx = cu(e["offset"])
+                if e.get("from_end"):
+                    # `[.., last]`: counted from the end of the slice
+                    ln_ = self.length(self.read_path(st, path))
+                    idx = fold("-", ln_, cu(e["offset"]))
+                else:
+                    idx = cu(e["offset"])
             else:
                 raise Unsupported("projection " + k)
         return path, idx
@@ -849,26 +857,9 @@ class Exec:
             op = rv["op"]
             if op.endswith("WithOverflow"):
                 sym = BINOPS[op[:-12]]
-                val_ = fold(sym, a, b)
-
-                def ifold(sy_, l_, r_):
-                    # integer identities (not for f64: -0.0 + 0.0 is +0.0)
-                    if sy_ in ("+", "-") and r_ == cu(0):
-                        return l_
-                    if sy_ == "+" and l_ == cu(0):
-                        return r_
-                    if sy_ == "*" and r_ == cu(1):
-                        return l_
-                    if sy_ == "*" and l_ == cu(1):
-                        return r_
-                    return fold(sy_, l_, r_)
-                # `n + usize::from(c)`: an integer added to a choice between two constants is the choice between the two sums
-                for x_, y_, left_ in ((a, b, False), (b, a, True)):
-                    if sym in ("+", "*") or (sym == "-" and not left_):
-                        if isinstance(y_, tuple) and y_ and y_[0] == "gamma" and is_const(y_[2]) and is_const(y_[3]) and not (isinstance(x_, tuple) and x_ and x_[0] == "gamma"):
-                            val_ = mk_gamma(y_[1], ifold(sym, x_, y_[2]) if not left_ else ifold(sym, y_[2], x_), ifold(sym, x_, y_[3]) if not left_ else ifold(sym, y_[3], x_))
-                            break
-                return ("adt", "tuple", (0, ""), (("0", val_), ("1", ("ovf", sym, a, b))), False)
+                return ("adt", "tuple", (0, ""), (("0", self.int_arith(sym, a, b)), ("1", ("ovf", sym, a, b))), False)
+            if op in ("Add", "Sub", "Mul", "AddUnchecked", "SubUnchecked", "MulUnchecked") and rv.get("operand_ty") != "f64":
+                return self.int_arith(BINOPS[op], a, b)   # (release profile: the same sums without the overflow flag)
             if op == "Cmp":
                 return ("cmp3", a, b)
             if op == "Offset":
@@ -1048,6 +1039,7 @@ class Exec:
                 st, b = self.summarize_loop(fr, st, b)
                 continue
             blk = fn.block_by_id[b]
+            self.visited.add((fn.path, b))
             for si_, s in enumerate(blk["stmts"]):
                 k = s["k"]
                 if k == "assign":
@@ -1086,7 +1078,14 @@ class Exec:
                     ops["expected"] = t["expected"]
                 except Unsupported:
                     pass
-                self.sites.append({"fn": fn.label, "path": fn.path, "block": b, "what": "assert", "kind": m["kind"], "op": m.get("op"),
+                oty_ = None
+                for key in ("a", "b", "index"):
+                    o_ = m.get(key)
+                    if isinstance(o_, dict):
+                        oty_ = (o_.get("place") or {}).get("ty") or (o_.get("c") or {}).get("ty") or oty_
+                        if oty_:
+                            break
+                self.sites.append({"fn": fn.label, "path": fn.path, "block": b, "what": "assert", "kind": m["kind"], "op": m.get("op"), "ty": oty_,
                                    "operands": ops, "facts": dict(st.facts), "span": t["span"], "root_depth": self.depth})
                 b = t["target"]
             elif k == "call":
@@ -1119,6 +1118,16 @@ class Exec:
                         # show the branch infeasible from the invariants; the value computation continues on the other edges
                         self.sites.append({"fn": fn.label, "path": fn.path, "block": b, "what": "diverge-edge", "kind": "panic-branch", "operands": {"cond": c},
                                            "facts": dict(st.facts), "span": t["span"], "target": tgt, "root_depth": self.depth})
+                        # the region behind the edge never returns: whatever it does is not part of any value (C12 decides whether the
+                        # edge can be taken); for the coverage premise it counts as looked at
+                        work_, seen_ = [tgt], set()
+                        while work_:
+                            x_ = work_.pop()
+                            if x_ in seen_ or x_ not in fn.block_by_id:
+                                continue
+                            seen_.add(x_)
+                            self.visited.add((fn.path, x_))
+                            work_.extend(y_ for y_ in fn.succs(fn.block_by_id[x_]) if cfg.diverges(y_))
                         continue
                     feas.append((c, tgt, ev))
                 if not feas:
@@ -1267,6 +1276,28 @@ class Exec:
         else:
             res = self.std_call(st, callee, name, args, t)
         self.write_place(fr, st, t["dest"], res)
+
+    @staticmethod
+    def int_arith(sym, a, b):
+        """integer + - *: `n + usize::from(c)` — an integer combined with a choice between two constants is the choice between the
+        two results; x + 0, x - 0, x * 1 are x (integers only: -0.0 + 0.0 is +0.0)"""
+        def ifold(sy_, l_, r_):
+            if sy_ in ("+", "-") and r_ == cu(0):
+                return l_
+            if sy_ == "+" and l_ == cu(0):
+                return r_
+            if sy_ == "*" and r_ == cu(1):
+                return l_
+            if sy_ == "*" and l_ == cu(1):
+                return r_
+            return fold(sy_, l_, r_)
+        for x_, y_, left_ in ((a, b, False), (b, a, True)):
+            if isinstance(y_, tuple) and y_ and y_[0] == "gamma" and is_const(y_[2]) and is_const(y_[3]) and y_[2][1] == "int" and y_[3][1] == "int" \
+                    and not (isinstance(x_, tuple) and x_ and x_[0] == "gamma"):
+                if left_:
+                    return mk_gamma(y_[1], ifold(sym, y_[2], x_), ifold(sym, y_[3], x_))
+                return mk_gamma(y_[1], ifold(sym, x_, y_[2]), ifold(sym, x_, y_[3]))
+        return fold(sym, a, b)
 
     def _is_mut_ref(self, t, i):
         o = t["args"][i]
@@ -1708,6 +1739,17 @@ class Exec:
                 self.write_ref(st, args[0], dflt)
                 return old
         # ---- unmodelled std callee: fail closed on anything through which it could change the evaluated state ----
+        # ... or run crate code the evaluator does not see: a std function instantiated at a crate type (a crate `Iterator` inside
+        # `chain(..).last()`, a crate `PartialOrd` inside `max`) calls back into that type's impls
+        def crate_ty(ty_):
+            if not isinstance(ty_, dict):
+                return False
+            if ty_.get("krate") == self.F.d["crate"] and ty_.get("k") in ("adt", "closure", "fndef"):
+                return True
+            return any(crate_ty(x_) for x_ in (ty_.get("args") or [])) or any(crate_ty(ty_.get(k_)) for k_ in ("to", "elem")) or any(crate_ty(x_) for x_ in (ty_.get("elems") or []))
+        if callees.classify(callee, self.F.d["crate"])[0] != "serde" and (any(crate_ty(x_) for x_ in (callee.get("targs") or [])) or crate_ty(callee.get("self_ty"))):
+            # (the serde runtime calls back into the *derived* impls of the component types, which are analysed as functions of their own)
+            raise Unsupported("std callee %s is instantiated at a type of this crate: it may call back into crate code the evaluation does not follow" % name)
         for i, a in enumerate(args):
             ty_ = self._arg_ty(t, i)
             v_ = a
